@@ -152,3 +152,40 @@ def break_documents():
                 f'<div style="break-before:{v2}"><div><p>{b}</p></div></div>')
         yield (f'brk-blocks-{v1}-{v2}', page(html, 200, 400),
                [(['auto', v1, 'auto', v2, 'auto', 'auto'], ida, idb)])
+
+
+# ---------------------------------------------------------------------------------------------
+# C02: adversarial-but-legal corners, enumerated
+
+def totality_documents():
+    """-> (doc id, html): every document must render and write (outcome `ok`)."""
+    # floats: zero-height / zero-width floats followed by floats that do not fit beside them
+    for h1, w1, w2, cw, side in itertools.product((0, 10), (0, 30, 60), (30, 60, 120), (100,), ('left', 'right')):
+        body = (f'<div style="width:{cw}px"><div style="float:{side};width:{w1}px;height:{h1}px"></div>'
+                f'<div style="float:{side};width:{w2}px;height:10px">a</div><p>b c d</p></div>')
+        yield f'tot-float-h{h1}-w{w1}-w{w2}-{side}', page(body, 200, 100)
+    # auto tables whose columns are all constrained and empty / zero
+    for width, cells, cw, pad in itertools.product((0, 80, 200), (1, 2, 3), (0, 10), (0, 2)):
+        tds = ''.join(f'<td style="width:{cw}px;padding:{pad}px"></td>' for _ in range(cells))
+        yield (f'tot-table-W{width}-n{cells}-c{cw}-p{pad}',
+               page(f'<table style="width:{width}px;border-spacing:0"><tr>{tds}</tr></table><p>x</p>', 200, 100))
+    # short paragraphs at the top of tiny pages with large orphans / widows
+    for lines, orphans, widows, height in itertools.product((1, 2, 3, 5), (1, 2, 4), (1, 2, 4), (8, 15, 25)):
+        text = '<br>'.join(f'l{i}' for i in range(lines))
+        yield (f'tot-ow-l{lines}-o{orphans}-w{widows}-H{height}',
+               page(f'<p style="orphans:{orphans};widows:{widows}">{text}</p><p>z</p>', 100, height))
+    # multi-column containers with degenerate widths / counts / gaps
+    for cwidth, count, gap, width in itertools.product(('0', '1px', 'auto'), ('auto', '1', '7'), ('0', '10px', '300px'), (0, 50)):
+        if cwidth == 'auto' and count == 'auto':
+            continue
+        yield (f'tot-cols-w{cwidth}-n{count}-g{gap}-W{width}',
+               page(f'<div style="column-width:{cwidth};column-count:{count};column-gap:{gap};width:{width}px">a b c d e</div>',
+                    200, 60))
+    # flex and grid containers with zero / huge sizes
+    for disp, size, gap, n in itertools.product(('flex', 'inline-flex', 'grid'), (0, 1, 5000), (0, 50), (1, 3)):
+        items = ''.join(f'<div style="flex:1 1 0;min-width:0">i{i}</div>' for i in range(n))
+        yield (f'tot-{disp}-s{size}-g{gap}-n{n}',
+               page(f'<div style="display:{disp};width:{size}px;gap:{gap}px">{items}</div><p>t</p>', 200, 80))
+    # page geometry: margins larger than the page, zero-size pages
+    for w, h, m in itertools.product((1, 10, 200), (1, 10, 100), (0, 5, 60)):
+        yield f'tot-page-{w}x{h}-m{m}', page('<p>a b c</p><p>d</p>', w, h, margin=m)
